@@ -114,8 +114,11 @@ CHECKS = {
     "C08": ("proof",
             "Coq theorems (exact instance): h*f = refill with weights*f, multiplicative, h*1=h, "
             "h*2=h+h, distributes over +, non-positive/NaN factor gives zero, Count with a "
-            "transform refuses, the product is a well-formed state of the same specification; " + TIE,
-            "finite positive factors; commutation with JSON is checked by C04",
+            "transform refuses, the product is a well-formed state of the same specification, and "
+            "scaling commutes with the JSON round trip (reloading h*f gives (the reload of h)*f, which "
+            "writes the document of h*f; every tree the reader accepts); " + TIE,
+            "finite positive factors; binary64 rounding of the products is compared on the "
+            "implementation (exactly on exact-safe programs, to 1e-9 otherwise)",
             "section 6 C08"),
     "C09": ("proof",
             "Coq theorems (exact instance): a == b holds exactly when the two aggregators have the same "
@@ -129,7 +132,7 @@ CHECKS = {
             "document mutation), and == is compared with equality of the toJson documents; != and "
             "the pickle clone are checked on the implementation",
             "equality of an immutable container with its JSON reload is decided by the "
-            "correspondence and the oracle (no node-level round-trip theorem); NaN centers of a "
+            "correspondence and the oracle; NaN centers of a "
             "CentrallyBin are excluded (compared with the plain ==); Bag of vectors is not modelled",
             "section 6 C09"),
     "C10": ("proof",
@@ -225,8 +228,9 @@ CHECKS = {
             "Coq theorem about the guard as coded (identity list threaded through a pre-order walk): "
             "it raises exactly when some object occupies two fillable positions; a rejected fill "
             "changes nothing; " + TIE + " on trees with a child object installed at a second "
-            "position (siblings, cousins), first and later fills, a new collection built over an "
-            "already filled (checked) tree and one of its inner nodes, and unshared controls",
+            "position (siblings, cousins, below a Select at the root), first and later fills, a new "
+            "collection built over an already filled (checked) tree and one of its inner nodes, one live "
+            "object placed twice into Label.ed / Index.ed, and unshared controls",
             "cycles (a node below itself) are probed on the implementation only; sharing installed by "
             "attribute assignment after the root was checked is the known finding "
             "C16-shared-after-checked-fill",
